@@ -163,13 +163,18 @@ func ruleValueCodecs(c *Ctx, rule string) {
 			b := ret.Block()
 			// guard
 			var kind, typ string
+			var alsoTypes []string // further types sharing this case body (`case typeUint8, typeInt8:`)
 			for _, iff := range ifsIn(fn) {
 				if iff.Block().Succs[0] != b && !(len(b.Preds) == 1 && edgeMustPass(fn, edge{iff.Block(), iff.Block().Succs[0]}, b) && reachFrom(iff.Block().Succs[0], nil, nil)[b] && iff.Block().Succs[0].Dominates(b)) {
 					continue
 				}
 				if bo, ok := iff.Cond.(*ssa.BinOp); ok && bo.Op == token.EQL && ex(bo.X) == "arg2.ftype" {
 					if kk, ok := constInt(bo.Y); ok {
-						kind, typ = "enum", ftConst[kk]
+						if kind == "enum" && typ != "" && typ != ftConst[kk] {
+							alsoTypes = append(alsoTypes, ftConst[kk])
+						} else {
+							kind, typ = "enum", ftConst[kk]
+						}
 					}
 				}
 				if e, ok := iff.Cond.(*ssa.Extract); ok && e.Index == 1 {
@@ -212,6 +217,12 @@ func ruleValueCodecs(c *Ctx, rule string) {
 				goSeen[typ] = true
 			}
 			var probs []string
+			for _, at := range alsoTypes {
+				enumSeen[at] = true
+				if asp, ok := specTypes[at]; !ok || asp.size != sp.size {
+					probs = append(probs, fmt.Sprintf("the case body is shared with %s whose spec width differs", at))
+				}
+			}
 			if !isK || int(k) != sp.size {
 				probs = append(probs, fmt.Sprintf("advances by %s bytes, the spec width of %s is %d: every later field is shifted", ex(ret.Results[0]), sp.ctype, sp.size))
 			}
